@@ -501,6 +501,8 @@ class GeoInterp:
                         return ('N', cand)
                 raise AnalysisError(f'geometry expression: order of `{s}` not decided by the '
                                     f'area invariants')
+        if f in ('cast', 'typing.cast') and len(e.args) == 2 and not kw:
+            return ev(e.args[1])        # typing.cast returns its second argument unchanged
         if f == 'range' and 1 <= len(e.args) <= 3 and not kw:
             av = [ev(a) for a in e.args]
             if all(a[0] == 'N' and a[1].is_const() for a in av):
@@ -789,15 +791,16 @@ class GeoInterp:
         # a result built in place (x.append(..) in a loop, x += ..) is not what the expansion of
         # the returned name shows: refuse rather than read the initial value
         for e in w.events:
+            nd = getattr(e, 'node', None)
             if e.kind == 'augstore' or (
-                    e.kind == 'call' and isinstance(e.value, ast.Call) and
-                    isinstance(e.value.func, ast.Attribute) and
-                    isinstance(e.value.func.value, ast.Name) and
-                    e.value.func.attr in ('append', 'extend', 'insert', 'add', 'update',
-                                          'reverse', 'sort', 'pop', 'remove', 'clear') and
-                    e.value.func.value.id in w.defs):
-                raise AnalysisError(f'{fn.short}: `{src(e.stmt)[:60]}` builds a value in place '
-                                    f'(outside the grammar of the pose interpreter)')
+                    e.kind == 'call' and isinstance(nd, ast.Call) and
+                    isinstance(nd.func, ast.Attribute) and
+                    isinstance(nd.func.value, ast.Name) and
+                    nd.func.attr in ('append', 'extend', 'insert', 'add', 'update',
+                                     'reverse', 'sort', 'pop', 'remove', 'clear') and
+                    nd.func.value.id in w.defs):
+                # statement by statement instead (loops over known finite collections unrolled)
+                return self._exec_function(fn, bound, depth)
         if not hasattr(self, '_frames'):
             self._frames = []
         self._frames.append((w, bound, fn.module))
@@ -815,6 +818,93 @@ class GeoInterp:
             return NONE
         finally:
             self._frames.pop()
+
+    # ---------------------------------------------------------------- statements
+    class _Return(Exception):
+        def __init__(self, value):
+            self.value = value
+
+    def _exec_function(self, fn: Func, bound: Dict[str, Any], depth: int):
+        """denotation of a small function that builds its result with statements: straight-line
+        assignments, `x.append(v)` / `x.extend(vs)` on lists built here, `for` over a collection
+        of known finite length (unrolled), `if`, `try` (the body; `except AttributeError` for
+        the duck-typing idiom `p.yx` / tuple), `return`, `raise`.  Anything else is outside the
+        grammar."""
+        from .normalise import fold_list_building
+        node = fold_list_building(fn.node)
+        env = dict(bound)
+        try:
+            self._exec(node.body, env, fn, depth)
+        except GeoInterp._Return as r:
+            return r.value
+        return NONE
+
+    def _exec(self, stmts, env, fn: Func, depth: int) -> None:
+        ev = lambda x: self.eval(x, env, fn.module, depth)     # noqa: E731
+        for s in stmts:
+            if isinstance(s, ast.Expr) and isinstance(s.value, ast.Constant):
+                continue
+            if isinstance(s, ast.AnnAssign):
+                if s.value is None:
+                    continue
+                s = ast.Assign([s.target], s.value)
+            if isinstance(s, ast.Assign) and len(s.targets) == 1:
+                v = ev(s.value)
+                if isinstance(s.targets[0], ast.Name):
+                    env[s.targets[0].id] = v
+                else:
+                    self._bind(s.targets[0], self._iterable(v), env)
+                continue
+            if isinstance(s, ast.Expr) and isinstance(s.value, ast.Call) and \
+                    isinstance(s.value.func, ast.Attribute) and \
+                    isinstance(s.value.func.value, ast.Name) and \
+                    s.value.func.attr in ('append', 'extend') and len(s.value.args) == 1 and \
+                    env.get(s.value.func.value.id, ('?',))[0] == 'U':
+                cur = env[s.value.func.value.id]
+                v = ev(s.value.args[0])
+                if s.value.func.attr == 'append':
+                    env[s.value.func.value.id] = ('U', cur[1] + (v,))
+                else:
+                    v = self._iterable(v)
+                    if v[0] != 'U':
+                        raise AnalysisError(f'{fn.short}: extend by `{src(s.value.args[0])}`')
+                    env[s.value.func.value.id] = ('U', cur[1] + v[1])
+                continue
+            if isinstance(s, ast.Expr) and isinstance(s.value, ast.Call) and \
+                    src(s.value.func) == 'cast':
+                continue
+            if isinstance(s, ast.For) and not s.orelse:
+                it = self._iterable(ev(s.iter))
+                if it[0] != 'U':
+                    raise AnalysisError(f'{fn.short}: loop over `{src(s.iter)}` (not a '
+                                        f'collection of known length)')
+                for item in it[1]:
+                    self._bind(s.target, item, env)
+                    self._exec(s.body, env, fn, depth)
+                continue
+            if isinstance(s, ast.If):
+                self._exec(s.body if self._truth(ev(s.test)) else s.orelse, env, fn, depth)
+                continue
+            if isinstance(s, ast.Try) and not s.finalbody and not s.orelse:
+                # the duck-typing idiom: `try: y, x = p.yx / except AttributeError: y, x = p`
+                snap = dict(env)
+                try:
+                    self._exec(s.body, env, fn, depth)
+                except AnalysisError:
+                    hs = [h for h in s.handlers if h.type is not None
+                          and 'AttributeError' in src(h.type)]
+                    if not hs:
+                        raise
+                    env.clear()
+                    env.update(snap)
+                    self._exec(hs[0].body, env, fn, depth)
+                continue
+            if isinstance(s, ast.Return):
+                raise GeoInterp._Return(NONE if s.value is None else ev(s.value))
+            if isinstance(s, ast.Raise):
+                raise GeoInterp._Return(('X', 'raise ' + (src(s.exc) if s.exc else '')))
+            raise AnalysisError(f'{fn.short}: statement `{src(s)[:60]}` outside the grammar of '
+                                f'the pose interpreter')
 
     def _expand_here(self, w: GuardWalk, e: ast.AST, bound, module, depth: int) -> ast.AST:
         """expansion of locals for the execution selected by the arguments: a local assigned
